@@ -444,6 +444,7 @@ def check_encoder(ctx, oid="C06.3"):
     R = ctx.R
     fi = ctx.fn("bits.utils.segwit_addr")
     ev = ctx.evaluator(opaque={B + "bech32_create_checksum"})
+    ev.unroll_sized = True  # the program is an input of exactly L bytes: code that walks it byte by byte is unrolled
     from .. import bitvec
     hrps = {"mainnet": b"bc", "testnet": b"tb", "regtest": b"bcrt"}
     n = 0
